@@ -138,6 +138,9 @@ type c05Rec struct {
 	crashed       []hotstuff.ID
 	newCommits    map[hotstuff.ID]int
 	prefixCommits int
+	// idleTimersOnly: timers fire only when no message is in flight (used when progress is certificate
+	// driven and a timeout would hand the lagging replica the sync info that hides a catch-up defect)
+	idleTimersOnly bool
 }
 
 // c05Recovery: a random prefix (partitions, loss, duplication, timeouts, up to f crashed replicas),
@@ -157,9 +160,15 @@ func c05Rejoin(cons string, n int, seed int64, views int, mode string) (*c05Rec,
 	for i := range all {
 		all[i] = hotstuff.ID(i + 1)
 	}
+	noCrash := mode == "all-live"
+	if noCrash {
+		// nobody crashes: the rejoining replica is needed for no quorum and leads no view of the suffix, so
+		// only the proposals it receives (one view per certificate, later ones parked) can bring it back
+		crashID = 0
+	}
 	var pool []hotstuff.ID
 	for _, id := range all {
-		if id != crashID {
+		if id != crashID && !(noCrash && id == lagID) {
 			pool = append(pool, id)
 		}
 	}
@@ -173,6 +182,8 @@ func c05Rejoin(cons string, n int, seed int64, views int, mode string) (*c05Rec,
 			spec.leaders = append(spec.leaders, lagID)
 		}
 		views += 2
+	} else if noCrash {
+		spec.leaders = append(c05Leaders("roundrobin", n, views+2, rng, pool), c05Leaders("roundrobin", n, 400, rng, pool)...)
 	} else {
 		spec.leaders = append(c05Leaders("roundrobin", n, views+2, rng, all), c05Leaders(mode, n, 400, rng, pool)...)
 	}
@@ -222,6 +233,10 @@ func c05Rejoin(cons string, n int, seed int64, views int, mode string) (*c05Rec,
 		w.crashed[nd.id] = true
 	}
 	res := &c05Rec{hist: h, crashed: []hotstuff.ID{crashID}, newCommits: map[hotstuff.ID]int{}}
+	if noCrash {
+		res.crashed = nil
+		res.idleTimersOnly = true
+	}
 	c05Suffix(h, live, cons, res)
 	return res, nil
 }
@@ -248,6 +263,9 @@ func c05Suffix(h *c01Hist, live []*wNode, cons string, res *c05Rec) {
 	if bound > 60 {
 		bound = 60
 	}
+	if res.idleTimersOnly && bound > 10 {
+		bound = 10 // certificate-driven catch-up takes one proposal per view of the gap; keep the history short
+	}
 	done := func() bool {
 		for _, nd := range live {
 			if len(nd.commits) <= base[nd.id] {
@@ -257,10 +275,22 @@ func c05Suffix(h *c01Hist, live []*wNode, cons string, res *c05Rec) {
 		return true
 	}
 	for res.rounds = 0; res.rounds < bound && !done(); res.rounds++ {
-		for i := 0; i < 1200 && !done() && h.deliverOne(nil); i++ {
+		more := true
+		perRound := 1200
+		if res.idleTimersOnly {
+			perRound = 400
+		}
+		for i := 0; i < perRound && !done(); i++ {
+			if !h.deliverOne(nil) {
+				more = false
+				break
+			}
 		}
 		if done() {
 			break
+		}
+		if res.idleTimersOnly && more {
+			continue // messages are still flowing: in a synchronous period no timer fires meanwhile
 		}
 		for _, nd := range live {
 			nd.eventLoop.AddEvent(hotstuff.TimeoutEvent{View: nd.viewStates.View()})
@@ -491,8 +521,11 @@ func TestVerifC05(t *testing.T) {
 	// 3. rejoin: one replica cut off for several views, then needed for every quorum
 	for _, cons := range []string{"chainedhotstuff", "simplehotstuff"} {
 		for _, n := range []int{4, 7} {
-			for _, mode := range []string{"fixed", "roundrobin", "scripted", "lag-leads"} {
+			for _, mode := range []string{"fixed", "roundrobin", "scripted", "lag-leads", "all-live"} {
 				for _, views := range []int{6, 12, v.Pick(20, 40)} {
+					if mode == "all-live" && views > 8 {
+						continue // a proposal more than 10 views ahead is dropped by design: the gap must stay below that
+					}
 					for rep := 0; rep < v.Pick(2, 8); rep++ {
 						seed := v.rng.Int63()
 						res, err := c05Rejoin(cons, n, seed, views, mode)
